@@ -2,6 +2,7 @@ import Lean.Data.Json
 import NGF.Model.Order
 import NGF.Model.Proto
 import NGF.DriverLib.PipelineIO
+import NGF.DriverLib.PipelineLayersIO
 /-
 Driver entry for C14. One JSON object per input line (emitted by harness/cmd/c14), field "site":
   gw | mr | lis | tls | btp | pol | det        (anything else is answered with "skip")
@@ -527,7 +528,9 @@ def driver (args : List String) : IO UInt32 := do
   -- stream `pipe`: one in-fragment state in several arrival orders (judge on the real outputs, tie with Pipeline.gen,
   -- gen_perm_equiv / gen_perm_meaning executed) — see NGF/DriverLib/PipelineIO.lean
   | ["pipeline"] => NGF.Proto.forEachLine stdin fun l => do stdout.putStrLn (NGF.PipelineIO.answer l); stdout.flush
-  | _ => IO.eprintln "usage: C14 model|judge|pipeline"; return 2
+  -- stream `pipe` with families refs / tls / base: the layered models (references, endpoints, TLS, statuses) per arrival order
+  | ["layers"] => NGF.Proto.forEachLine stdin fun l => do stdout.putStrLn (NGF.PipelineLayersIO.answer l); stdout.flush
+  | _ => IO.eprintln "usage: C14 model|judge|pipeline|layers"; return 2
   return 0
 
 end NGF.Order.Driver
